@@ -66,7 +66,12 @@ theorem C18_loop_tied :
     loopStep = "current.Add(time.Hour)" ∧
     clampStmt = "current.Before(minPartitionDate) => current = minPartitionDate" ∧
     hourlyExpr = "int64((span + time.Hour - 1) / time.Hour)" ∧ dailyExpr = "hourlyPaths/24 + 1" ∧
-    dayLevelPaths = true ∧ emptyFallbacks = 2 ∧ partitionCacheConsultedFirst = true ∧
+    dayLevelPaths = true ∧ emptyFallbacks = 2 ∧ partitionCacheConsultedFirst = true := by decide
+
+/-- unit → arithmetic table of `evaluateRelativeTime` the model's `relGo` was written for: second/minute/hour are
+    fixed Durations, day/week are `AddDate` days (= n·24 h in UTC), month is CALENDAR-month `AddDate(0, n, 0)`
+    (no `year` unit: the regexes do not recognise it). -/
+theorem C18_relative_units_tied :
     relativeUnits = ["second => now.Add(time.Duration(n) * time.Second)",
                      "minute => now.Add(time.Duration(n) * time.Minute)",
                      "hour => now.Add(time.Duration(n) * time.Hour)",
